@@ -105,6 +105,11 @@ CHECKS = {
         note="Completeness of the front is checked up to max(2^(n-1), largest returned)+1 per impact; everything else is exact. Bases over 2-3 atoms, <= 3 conditionals.",
         ref="6 C17", tech="TLC trace validation of recorded object life cycles against TLA+ definitions (IsCRep, SmallerCReps, ParetoMin)",
     ),
+    "C19": dict(
+        text="Revision.tla: incremental compilation model (Add/Remove with per-world caches) and the meaning of revision parameters (Revised, RevOK, Admissible, SmallerMinus); TLC checks all add/remove sequences keep the caches exact and equal to a fresh model. On the real code add/remove histories on CRevisionModel are recorded with the caches after every step; to_compilation, compile_alt and compile_alt_fast are compared by TLC, as bags of triples per index, with the specification's Compilation; every c_revision call (all gamma modes, fixed maps, with/without the incremental model) is validated: never raises, parameters non-negative, fixed values respected, revised ranking accepts every conditional, gamma- Pareto-minimal when gamma+ is zero (finite search), None only if TLC finds no admissible parameters in the stated box.",
+        note="'No parameters exist' is refuted only by a witness inside the box (gamma- <= max prior + 2^(n-1) + 1). Priors over 2-3 atoms, <= 3 live conditionals. One known finding (fixed_gamma_minus call site) is listed in known_findings.json.",
+        ref="6 C19", tech="TLA+ machine model-checked by TLC; TLC trace validation of recorded add/remove/compile/c_revision histories against TLA+ definitions",
+    ),
 }
 
 NOT_YET = {
